@@ -166,7 +166,17 @@ def replay(chk, behs, rng, fire_every):
                                 return calc.fire(shot, U.Foot(16), U.Foot(8)).trajectory[0].velocity >> VU
                             except m.RangeError as e:
                                 return e.incomplete_trajectory[0].velocity >> VU
+                        switched = bare and (step + 1) % 4 != 0 and (bi + step) % 2 == 0
+                        if switched:
+                            # an atmosphere is a value: the bare numbers it was built from were read when it was built; the
+                            # caller changes the preferred units afterwards, before the shot is fired
+                            m.PreferredUnits.temperature = UA.unit_enum(temp_units[(bi + step + 1) % 4])
+                            m.PreferredUnits.velocity = UA.unit_enum(vel_units[(bi + step + 1) % 5])
+                            chk.stratum("bare_atmosphere_fired_under_other_preferences")
                         o2 = impl.outcome(launch)
+                        if switched:
+                            m.PreferredUnits.temperature = TU
+                            m.PreferredUnits.velocity = VU
                         chk.count(1)
                         chk.stratum("fire_" + mode)
                         if o2[0] != "ok":
@@ -273,7 +283,7 @@ def run(chk: core.Check, replay_path=None, **_):
     for b in behs[:: max(1, len(behs) // 4)][:4]:
         chk.sample(b)
     chk.require_strata(["epilogue_switched_on", "fire_held_shot_after_every_operation", "display_and_preferences_perturbed", "bare_numbers", "calibration_rejected", "calibrated_faster", "calibrated_slower", "calibrated_warmer", "calibrated_colder",
-                        "query_enabled", "query_disabled", "fire_air", "fire_powder_t", "fire_implied_powder_temperature"])
+                        "query_enabled", "query_disabled", "fire_air", "fire_powder_t", "fire_implied_powder_temperature", "bare_atmosphere_fired_under_other_preferences"])
     chk.rule.append("every behaviour of %d operations of the Powder state machine over v in %s m/s, T in %s C (TLC Gen_Powder), "
                     "temperatures/velocities passed in rotating units; non-trivial = an enabled query whose answer differs "
                     "from the stated velocity" % (maxops, vels, temps))
